@@ -52,6 +52,8 @@ type topicPeerView struct {
 	memberToView      *sync.Map // (id uint16) --> (ids []uint16)
 	responsesReceived *sync.Map // uint16 --> struct{}
 	responses         chan []uint16
+	queriesReceived   *sync.Map // uint16 --> struct{}
+	queries           chan []uint16
 }
 
 type Membership []uint16
@@ -138,15 +140,28 @@ func (m *Member) Synchronize(ctx context.Context, f func([]uint16), topicToSynch
 
 	acknowledgementsLeft := expectedMemberCount - 1
 
-	for acknowledgementsLeft > 0 {
+	// We also wait until every other member has queried us about this very list: such a member has completed its own
+	// first phase, and we have answered it. Whoever completes may therefore stop serving the topic at once
+	// without leaving a slower member waiting for an acknowledgement that would never come.
+	queriesLeft := expectedMemberCount - 1
+
+	for acknowledgementsLeft > 0 || queriesLeft > 0 {
 		select {
 		case peers := <-tpv.responses:
 			if myView != fmt.Sprintf("%v", peers) {
 				continue
 			}
 			acknowledgementsLeft--
+		case peers := <-tpv.queries:
+			if myView != fmt.Sprintf("%v", peers) {
+				continue
+			}
+			queriesLeft--
 		case <-ctx.Done():
-			return fmt.Errorf("haven't received %d out of %d acknowledgements", acknowledgementsLeft, expectedMemberCount-1)
+			if acknowledgementsLeft > 0 {
+				return fmt.Errorf("haven't received %d out of %d acknowledgements", acknowledgementsLeft, expectedMemberCount-1)
+			}
+			return fmt.Errorf("haven't been queried by %d out of %d members", queriesLeft, expectedMemberCount-1)
 		}
 	}
 
@@ -232,6 +247,8 @@ func (m *Member) registerInterestInTopic(topic topic) (*topicPeerView, error) {
 		memberToView:      &sync.Map{},
 		responses:         make(chan []uint16, len(m.Membership)-1),
 		responsesReceived: &sync.Map{},
+		queries:           make(chan []uint16, len(m.Membership)-1),
+		queriesReceived:   &sync.Map{},
 	}
 	_, loaded := m.topicsToMemberViews.LoadOrStore(topic, tpv)
 
@@ -293,6 +310,7 @@ func (m *Member) HandleMessage(from uint16, msg []byte) {
 	case msgTypeQuery:
 		m.handleMembershipMessage(from, tpv, peers)
 		m.respondToQuery(from, topicAndID)
+		m.handleQuery(from, peers, tpv)
 	case msgTypeResponse:
 		m.handleResponse(from, peers, tpv)
 	default:
@@ -305,6 +323,14 @@ func (m *Member) handleResponse(from uint16, peers []uint16, tpv interface{}) {
 	_, existed := topicPeerView.responsesReceived.LoadOrStore(from, struct{}{})
 	if !existed {
 		topicPeerView.responses <- peers
+	}
+}
+
+func (m *Member) handleQuery(from uint16, peers []uint16, tpv interface{}) {
+	topicPeerView := tpv.(*topicPeerView)
+	_, existed := topicPeerView.queriesReceived.LoadOrStore(from, struct{}{})
+	if !existed {
+		topicPeerView.queries <- peers
 	}
 }
 
